@@ -460,11 +460,6 @@ theorem bounds_spec {r : Nat → Nat} : ∀ {st : List (MBlk K)} {e : Nat}, BRel
     simp only [List.map_cons, List.map_nil, h1, toBlk']
     congr 2; omega
 
-/-! ### the entry point -/
-
-section Entry
-variable [LE K] [DecidableLE K] [Add K] [Mul K] [Div K]
-
 theorem RRel_init (p : Obs K) : ∀ (l pre : List (Obs K)) (ys : List (Obs K)), ys = pre ++ l →
     RRel (fun k => (ys.getD k p).1) (fun k => (ys.getD k p).2) pre.length l
   | [], _, _, _ => trivial
@@ -474,6 +469,12 @@ theorem RRel_init (p : Obs K) : ∀ (l pre : List (Obs K)) (ys : List (Obs K)), 
     · simp [h, List.getD_eq_getElem?_getD]
     · have := RRel_init p l (pre ++ [q]) ys (by simp [h])
       simpa using this
+
+
+/-! ### the entry point -/
+
+section Entry
+variable [LE K] [DecidableLE K] [Add K] [Mul K] [Div K]
 
 /-- **pavaArr_eq_pavaMean**: the in-place array program is the stack model: same fitted values, same block index
 vector - for every non-empty input, whatever the weights are. -/
